@@ -13,6 +13,23 @@ CHECKS = {
         'results. Magnitudes <= 181 (no overflow); operations the library asserts out are not issued.',
    technique='TLA+ reference semantics + TLC trace validation of implementation executions (register machine)'),
 }
+
+NET_NOTE = ('Trusted: TLC; the TLA+ semantics (SatSem model enumeration, LraSem Fourier-Motzkin - self-checked against vertex '
+            'enumeration by MC_LraSem -, DiffLogic Floyd-Warshall); the hooks (clauses as given, learnt clauses, literal '
+            'definitions) and the driver\'s projection of the state after every call. Scope: <= 11 propositional variables and '
+            '<= 6 theory atoms per execution; documented preconditions respected.')
+def net(design, text, technique='TLC trace validation of recorded API histories against the TLA+ network specification (NetworkTrace)'):
+    return dict(cat='model_checking', design=design, text=text, note=NET_NOTE, technique=technique)
+CHECKS.update({
+ 'C07': net('3/C07', 'Seeded API histories on the real sat_core with all four theories attached are recorded call by call (results, hook events, full visible state) and every line is validated by TLC against NetworkTrace.tla: reported truth values entailed by clauses /\\ theories /\\ decisions (model enumeration), learnt clauses entailed at the moment they are learnt, false answers only on unsatisfiability, complete assignments are models.'),
+ 'C08': net('3/C08', 'The same recorded histories (assume / pop / next / check with conflicts and backjumps): whenever the same set of assigned literals recurs, bounds, distance matrices and domains must be identical (history variable in the trace spec), and every assigned literal must be entailed by the standing decisions, so root level keeps only root consequences.'),
+ 'C09': net('3/C09', 'LRA-heavy histories: after every successful propagation the reported values satisfy every asserted relation in exact InfRat arithmetic, lie within the reported bounds, the bounds exclude no real solution (Fourier-Motzkin in TLA+), learnt clauses and false answers are justified by infeasibility.'),
+ 'C10': net('3/C10', 'IDL/RDL histories: the reported distance matrix equals the Floyd-Warshall closure (TLA+) of the currently asserted constraints, negated ones included; no undecided constraint is decided by the distances; learnt explanations are entailed; inconsistency only with a negative cycle.'),
+ 'C11': net('3/C11', 'Requests of the five relations between linear expressions before/after root tightening: constants must be entailed in every model, literals receive the relation as their meaning against which all later observations are judged, a request never changes the set of models.'),
+ 'C12': net('3/C12', 'Requests of the five relations between difference expressions and bounds/distance/equates queries: in every model the literal is true (false) only if the asserted constraints entail the relation (its negation); query answers equal the values computed in TLA+ from the logged variable-level matrix.'),
+ 'C13': net('3/C13', 'Every constructor call (duplicates, complementary pairs, constants, root-assigned arguments, cache hits, pairwise and product encodings) with the clauses it emitted: the returned literal equals the formula in every model (eq/conj/disj), forces the cardinality constraint and excludes no satisfying argument assignment (amo/exo), and the request does not constrain existing variables.'),
+ 'C14': net('3/C14', 'Object variables over domains of 1-3 values: exactly one value literal true in every model, reported domain = values whose literal is not false, equality literal true exactly in the models where both variables take the same value, over assume/pop/next histories.'),
+})
 NOT_YET = {
 }
 
